@@ -32,6 +32,8 @@ def run(chk, args):
          "families": QUICK_FAMILIES if q else FAMILIES + ",xs2,xs3", "classes": CLASSES},
         {"kind": "walk", "source": "family", "ns": "3,4,5", "count": 24 if q else 96, "gaps": "exploitability",
          "families": "xs2,xs3,xs6,oxs,noisy_factory,noisy_factory_square", "classes": CLASSES},
+        # 2^n beyond 64 and 128: short episodes (fixed-width integer types and bit-mask keys change behaviour there)
+        {"kind": "walk", "ns": "7,8", "count": 3 if q else 12, "classes": "superadditive_cached,sam_apx_1"},
     ])
     replay_gym_behaviours(chk, "SA3", {"N": 3, "gameset": "SA", "comps": {"sa", "sac"}, "reps": {0}}, 40 if q else 300, 12)
     replay_gym_behaviours(chk, "SAM3", {"N": 3, "gameset": "SAM", "comps": {"sam"}, "reps": {0, 1, 2}}, 20 if q else 200, 12)
